@@ -155,6 +155,17 @@ def run(tier):
                 {"date": info["date"], "persons": info["persons"], "run": r, "col": b["col"], "clause": b["c"]},
             )
         chk.sample({"date": info["date"], "persons": info["n"], "columns": info["ncols"], "runs": [(r["rel"], len(r["targets"]), r["opts"]) for r in info["runs"][:6]]})
+    # ---- check_minimal_specification as a specified outcome: unused data / unused overriding columns
+    import minimal
+
+    for d_ in dates[: (1 if quick else 4)]:
+        df_, P_ = make_population(d_, rnd, k=2)
+        df_["kindergeld_m"] = 100.0
+        df_["zzz_unused"] = 1.0
+        cand = [t for t in gs.default_targets() if t != "kindergeld_m" and t in gs.env(d_)[1] or t.endswith(("_bg", "_wthh", "_eg", "_sn"))]
+        tsets = [["kindergeld_m_hh", "eink_st_y_sn"], ["ges_rente_m"], ["kindergeld_m_hh"], rnd.sample(cand, min(4, len(cand)))]
+        for m_ in minimal.run(chk, d_, df_, tsets, f"min{d_}"):
+            chk.violation(f"C04|minimal-specification|mode={m_['mode']}", f"check_minimal_specification={m_['mode']}: reported unused columns differ from the specified ones for targets {m_['targets']} at {d_}", m_)
     chk.cov["rule"] = (
         "per population: base run with all non-time-derived nodes; related runs with single default targets, seeded target subsets of sizes 1..25, "
         "a target creating an automatic group sum, debug=True, check_minimal_specification=warn, reversed target order, default targets, unused extra data columns; "
